@@ -29,7 +29,7 @@ EXPECT_PROBES = {"quick": [], "thorough": []}
 
 def make_cfg(rs, tier):
     cfg = _unbuf.base_cfg(rs, ID, p_list=0.5)
-    cfg["nobj"] = 1
+    cfg["nobj"] = rs.choice([1, 1, 2])   # a second object is only ever used as a comparison operand (never loaded before)
     cfg["p_outside"] = 0.0
     cfg["p_mut"] = rs.choice([0.4, 0.6])
     cfg["oracles"] = ["backend", "result"]
@@ -97,7 +97,8 @@ def weird_list_op(rg, w, c):
 
 
 def gen_step(w, rg):
-    hs = G.attached_handles(w)
+    allh = G.attached_handles(w)
+    hs = [h for h in allh if h.oid == 0]
     if not hs:
         return None
     nested = [h for h in hs if h.path]
@@ -111,7 +112,7 @@ def gen_step(w, rg):
         return {"t": "op", "hid": h.hid, "name": name, "args": args}
     if roll < 0.30:
         # comparison against a synced operand (another handle of the same kind)
-        same_kind = [x for x in hs if x.kind == h.kind]
+        same_kind = [x for x in allh if x.kind == h.kind]
         other = G.pick(rg, same_kind)
         names = ["eq", "ne"] if h.kind == "dict" else ["eq", "ne", "lt", "le", "gt", "ge"]
         name = G.pick(rg, names)
@@ -121,6 +122,15 @@ def gen_step(w, rg):
                 name = "eq"
         w.probe("synced_operand")
         return {"t": "op", "hid": h.hid, "name": name, "args": [{"$handle": other.hid}]}
+    if roll < 0.36:
+        # documented deviation: bytes / tuples / ranges (also nested) are STORED as lists
+        seqv = G.pick(rg, [{"$bytes": [2, 3]}, {"$tuple": [2, [3]]}, {"$range": [2, 5]}, {"k": {"$tuple": [4, 5]}}, [{"$bytes": [7]}], {"$tuple": []}])
+        w.probe("weird_op")
+        if h.kind == "dict":
+            name, args = G.pick(rg, [("setitem", [G.gen_key(rg, w.fresh, c, 0.3), seqv]), ("update", [{"sq": seqv}]), ("setdefault", [w.fresh.key(), seqv])])
+        else:
+            name, args = G.pick(rg, [("append", [seqv]), ("insert", [0, seqv]), ("extend", [[seqv]]), ("iadd", [[seqv]])])
+        return {"t": "op", "hid": h.hid, "name": name, "args": args}
     if roll < 0.45:
         st = G.gen_navigate_step(rg, w, h)
         if st:
